@@ -44,6 +44,9 @@ def df_frame(d, data):
     cols, rows = df_frame(d[1], data)
     if d[0] == "alias":
         return cols, rows
+    if d[0] == "limit":
+        assert d[2] >= len(rows), "limit below the row count is not deterministic"
+        return cols, rows
     if d[0] == "where":
         return cols, [r for r in rows if _ev(d[2], cols, r) is True]
     if d[0] == "proj":
@@ -54,9 +57,9 @@ def df_frame(d, data):
 
 # ---- implementation ------------------------------------------------------------------------------------------------
 
-def run_impl(case, session, F):
+def run_impl(case, session, F, order_seed=None):
     """((cols, rows), None) or (None, 'ExcClass: text')"""
-    b = cc.Builder(session, F, case["data"])
+    b = cc.Builder(session, F, case["data"], order_seed=order_seed)
     try:
         df = b.final(case)
         return cc.observe(df), None
@@ -97,14 +100,23 @@ def observe_lineage(case, session, F, builder=None):
     `builder`: the Builder that ran the case (its DataFrame objects are the ones observed); a fresh one otherwise."""
     b = builder or cc.Builder(session, F, case["data"])
     ids = Ids()
-    out = {"tables": [], "same_branch": [], "known": [], "objs": b, "ids": ids, "error": None}
+    out = {"tables": [], "same_branch": [], "known": [], "stale": [], "objs": b, "ids": ids, "error": None}
     try:
         left = b.df(case["left"])
         stages = getattr(b, "stages", None) or [left]
         segs = [frozen_ctes(left, True)]
+        tnames = [segs[0][-1].alias_or_name]         # names of the FROM/JOIN tables so far
         for i, st in enumerate(case["steps"]):
             r = b.df(st["right"])
             segs.append(frozen_ctes(r, False))
+            # other_df.latest_cte_name as join() will see it (before _add_ctes_to_expression renames a duplicate)
+            rname = segs[-1][-1].alias_or_name
+            out["stale"].append(tnames.index(rname) if rname in tnames else None)
+            if i + 1 < len(stages):
+                js = stages[i + 1].expression.args.get("joins") or []
+                tnames.append(js[-1].this.alias_or_name if len(js) > i else "?")
+            else:
+                tnames.append("?")
             cur = stages[i] if i < len(stages) else None
             if cur is None:
                 # the chain could not be built this far (join() raised): lineage of a join result = lineage of its left side
@@ -209,21 +221,52 @@ def frame_of(d, data):
     return rel.frame_coq(cols, rows)
 
 
+def ue_plain(e):
+    """a condition inside an input DataFrame (bare names only) as a vlib.rel expression descriptor"""
+    k = e[0]
+    if k == "ref":
+        assert e[1][0] == "name"
+        return ("col", e[1][1])
+    if k == "lit":
+        return ("lit", e[1])
+    if k == "bin":
+        return ("bin", e[1], ue_plain(e[2]), ue_plain(e[3]))
+    if k == "not":
+        return ("not", ue_plain(e[1]))
+    if k == "isnull":
+        return ("isnull", ue_plain(e[1]))
+    raise ValueError(e)
+
+
+def df_wheres(d):
+    """all WHERE conjuncts a DataFrame description carries down to its base table (as Coq expr terms)"""
+    if d[0] == "base":
+        return []
+    inner = df_wheres(d[1])
+    return ([rel.e_coq(ue_plain(d[2]))] + inner) if d[0] == "where" else inner
+
+
+def expected_table_wheres(case):
+    return listlit([listlit(sorted(df_wheres(d))) for d in [case["left"]] + [s["right"] for s in case["steps"]]])
+
+
 def dummy_lineage(case):
     """for terms that are only given to the Spark spec (which ignores the implementation's lineage ids)"""
     return {"tables": [], "same_branch": [], "alias_seq": {}, "spec_only": True}
 
 
-def case_coq(case, lin, impl, exported="None", spec_only=False):
-    """impl: (cols, rows) | None; exported: Coq term of type option exported"""
+def case_coq(case, lin, impl, exported="None", spec_only=False, table_wheres="None"):
+    """impl: (cols, rows) | None; exported: Coq term of type option exported; table_wheres: option (list (list expr))"""
     tabs = lin["tables"] or [[] for _ in range(len(case["steps"]) + 1)]
     while len(tabs) < len(case["steps"]) + 1:
         tabs.append([])
     steps = []
     for i, st in enumerate(case["steps"]):
         sb = lin["same_branch"][i] if i < len(lin["same_branch"]) else False
+        stale = lin["stale"][i] if i < len(lin.get("stale", [])) else None
         steps.append(f"(mkStep {frame_of(st['right'], case['data'])} {base_of(st['right'])} {ctes_coq(tabs[i + 1], i + 1)} "
-                     f"{on_coq(st['on'], case, lin, i)} {strlit(st['how'])} {boollit(sb)})")
+                     f"{on_coq(st['on'], case, lin, i)} {strlit(st['how'])} {boollit(sb)} "
+                     f"{'None' if stale is None else '(Some ' + natlit(stale) + ')'})")
     fin = case.get("fin")
     if fin is None:
         fin_t = "FNone"
@@ -232,7 +275,7 @@ def case_coq(case, lin, impl, exported="None", spec_only=False):
     else:
         fin_t = "(FSelect " + listlit([f"({ue_coq(e, case, lin, None)}, {strlit(o)})" for e, o in fin[1]]) + ")"
     return (f"(mkJCase {frame_of(case['left'], case['data'])} {base_of(case['left'])} {ctes_coq(tabs[0], 0)} {listlit(steps)} {fin_t} "
-            f"{obs_coq(impl)} {exported})")
+            f"{obs_coq(impl)} {exported} {table_wheres} {expected_table_wheres(case)})")
 
 
 def obs_coq(obs):
@@ -253,6 +296,8 @@ def df_str(d):
         return f"{df_str(d[1])}.alias('{d[2]}')"
     if d[0] == "proj":
         return f"{df_str(d[1])}.select({', '.join(map(repr, d[2]))})"
+    if d[0] == "limit":
+        return f"{df_str(d[1])}.limit({d[2]})"
     return str(d)
 
 
